@@ -2137,3 +2137,50 @@ def c18_selection_rules(ctx):
             else:
                 r19.bad(ctx.finding("C18.R19", init, n, "`%s` treats `aggregate` as a container of dimension names, but the documented single-name form is a str: the test is then a substring test, so aggregate='run' also selects a dimension called 'n' or 'u' "
                                     "(slices along it are silently merged into one line)" % norm(n), construct="aggregate-substring"), "aggregate container")
+
+
+def c17_scatter_norm_rule(ctx, rid):
+    """C17.R12: scatter points coloured by a variable use the plot's one colour norm.  matplotlib's scatter(c=values,
+    cmap=...) without norm / vmin / vmax scales every call to the range of the values it is given: with one call per z
+    series each series is normalised to its own range, requested limits are ignored and the colour bar (built from the
+    shared norm) does not describe the points."""
+    rr = ctx.rule(rid, "scatter coloured by a variable: the draw call that receives the values and the colour map also receives the shared norm (self._color_norm) or both limits", floor=1)
+    prog = ctx.prog
+    f = prog.func(MPL + ".Scatter.plot_scatter")
+    need(f is not None, "anchor lost: Scatter.plot_scatter")
+    ctx.touch(f)
+    calls = [c for c in walk_shallow(f.node) if isinstance(c, ast.Call) and isinstance(c.func, ast.Attribute) and c.func.attr == "scatter" and norm(c.func.value) in ("self._axes", "ax")]
+    need(len(calls) == 1, "anchor lost: the scatter draw call")
+    c = calls[0]
+    keys = {k.arg for k in c.keywords if k.arg}
+    splats = [k.value.id for k in c.keywords if k.arg is None and isinstance(k.value, ast.Name)]
+    cond_keys = {}
+    for nm in splats:
+        for st in walk_shallow(f.node):
+            if isinstance(st, ast.Assign) and isinstance(st.targets[0], ast.Name) and st.targets[0].id == nm:
+                from .shared import dict_literal
+                dl = dict_literal(st.value)
+                if isinstance(dl, ast.Dict):
+                    keys |= {k.value for k in dl.keys if isinstance(k, ast.Constant)}
+            if isinstance(st, ast.Assign) and isinstance(st.targets[0], ast.Subscript) and norm(st.targets[0].value) == nm and isinstance(st.targets[0].slice, ast.Constant):
+                guard = " and ".join(norm(t_) for t_, pol in __import__("xyzsa.pathcond", fromlist=["x"]).path_tests(f.node, st) if pol)
+                cond_keys.setdefault(guard, {})[st.targets[0].slice.value] = st.value
+    for guard, ks in cond_keys.items():
+        if "cmap" in ks:
+            if "norm" in ks and "_color_norm" in norm(ks["norm"]):
+                rr.ok("under `%s`: cmap and norm=self._color_norm" % guard)
+            elif {"vmin", "vmax"} <= set(ks):
+                rr.ok("under `%s`: cmap with vmin and vmax" % guard)
+            elif "norm" in ks:
+                raise AnalysisError("idiom changed: scatter norm is `%s`" % norm(ks["norm"]))
+            else:
+                rr.bad(ctx.finding(rid, f, ks["cmap"], "the scatter call receives the colour values and the colour map (under `%s`) but neither the plot's norm nor limits: matplotlib scales each call to the values it is given, so with several z series every series is "
+                                   "normalised to its own range (equal values get different colours), vmin / vmax / zlims / colormap_log are ignored and the colour bar does not describe the points" % guard, construct="scatter-no-norm"), "scatter norm")
+    if not any("cmap" in ks for ks in cond_keys.values()):
+        if "cmap" in keys and not ("norm" in keys or {"vmin", "vmax"} <= keys):
+            rr.bad(ctx.finding(rid, f, c, "the scatter call receives a colour map but neither the plot's norm nor limits", construct="scatter-no-norm"), "scatter norm")
+        elif "cmap" in keys:
+            rr.ok("scatter: cmap together with norm / limits")
+        else:
+            raise AnalysisError("idiom changed: how plot_scatter passes the colour map")
+    return rr
